@@ -106,13 +106,17 @@ func Exec(c *Case) (nontrivial bool, labels []string, fail *vlib.Failure) {
 		fmt.Fprintf(os.Stderr, "HARNESS-ERROR %v\n", err)
 		os.Exit(2)
 	}
-	device := vlib.NormPresence(h.Dev.Snapshot())
+	raw := h.Dev.Snapshot()
+	device := vlib.NormPresence(raw)
 	var reqs []*sdcpb.TransactionIntent
 	for _, n := range names {
 		it := h.Model.Intents[n]
 		ruling, shadowed := 0, 0
 		for p := range it.Leaves {
-			if dv, has := device[p]; !has || dv != merge[p] {
+			// a presence container the device was never told to create (it exists there only through a child: the
+			// suppressed case member that was not sent when its case won, C08) is sent by the re-application
+			_, explicit := raw[p]
+			if dv, has := device[p]; !has || dv != merge[p] || !explicit {
 				// the device itself does not hold the winner (a defect C01 / C05 report): re-sending is legitimate
 				if vlib.MustCanon(p).IsKeyLeaf() {
 					continue
